@@ -5,6 +5,7 @@ import (
 	"fmt"
 	"os"
 	"strings"
+	"time"
 
 	gohlslib "github.com/bluenviron/gohlslib/v2"
 )
@@ -40,6 +41,9 @@ func replayHistory(d *driver, c *ctl, frames []bool) ([]wop, error) {
 // (keeps the number of parked goroutines, hence the cost of state inspection, small).
 func drain(d *driver, c *ctl) {
 	c.drain.Store(true)
+	if !gohlslib.VerifServerMutexFree(d.m) || !gohlslib.VerifMutexFree(d.m) {
+		return // a lock is held for good: a further write would block for ever
+	}
 	for i := 0; i < 12; i++ {
 		if d.writeFrame(true) != nil {
 			break
@@ -920,6 +924,7 @@ func runClose(sc scenario, work string) (res result) {
 		}
 	}
 	mutexFree := gohlslib.VerifMutexFree(p.d.m)
+	serverFree := gohlslib.VerifServerMutexFree(p.d.m)
 	filesEmpty := "None"
 	dirLeft := []string{}
 	if p.d.dir != "" {
@@ -947,6 +952,9 @@ func runClose(sc scenario, work string) (res result) {
 		}
 		res.fail(sc, "C07:preload-hint:closed-exit:mutex-held",
 			"after Close returned and every handler returned or is parked, the muxer mutex is still held: "+who)
+	}
+	if !serverFree && !inside {
+		res.fail(sc, "C07:path-table-lock-held", "after Close returned and every handler returned or is parked, the lock of the path table (muxerServer.mutex) is still held")
 	}
 	for i, o := range p.out {
 		k := kindOf(p.reqs[i])
@@ -980,6 +988,196 @@ func runClose(sc scenario, work string) (res result) {
 	for _, i := range pendingOrig {
 		res.tags = append(res.tags, "close:pending-kind="+kindOf(p.reqs[i]))
 	}
+	close(p.cmds)
+	return
+}
+
+// locksOracle: once every requester has returned (or is parked in Wait), no internal lock may be held.
+func (p *phase) locksOracle(when string) {
+	for i := range p.out {
+		if c := p.out[i].Class; c == "lookedup" || c == "woken" || c == "lockblocked" {
+			return
+		}
+	}
+	if !gohlslib.VerifServerMutexFree(p.d.m) {
+		p.res.fail(p.sc, "C07:path-table-lock-held", when+": every handler has returned, yet the lock of the path table (muxerServer.mutex) is still held")
+	}
+	if !gohlslib.VerifMutexFree(p.d.m) {
+		p.res.fail(p.sc, "C07:muxer-mutex-held", when+": every handler has returned, yet the muxer mutex is still held")
+	}
+}
+
+// closeFromWriter runs Muxer.Close on the writer goroutine (its close hook passes through) and
+// settles the requesters that were asleep. Model: SW 4, the woken ones, SW n+1 (flags are set
+// before the broadcast, so the order of re-checks and stream.close() does not matter).
+func (p *phase) closeFromWriter() error {
+	pending := p.sleepers()
+	nstreams := p.sc.Cfg.Streams
+	if p.sc.Cfg.Variant == "MPEGTS" {
+		nstreams = 1
+	}
+	p.prog = append(p.prog, wop{K: "Close"})
+	p.cmds <- func() { p.d.m.Close() }
+	p.items = append(p.items, "SW 4%nat")
+	if err := p.settle(pending, "returned", "woken by Close"); err != nil {
+		return err
+	}
+	p.items = append(p.items, fmt.Sprintf("SW %d%%nat", nstreams+1))
+	return nil
+}
+
+func dirEntries(dir string) []string {
+	var l []string
+	if dir != "" {
+		ents, _ := os.ReadDir(dir)
+		for _, e := range ents {
+			l = append(l, e.Name())
+		}
+	}
+	return l
+}
+
+// ---------------- Close after a preload-hint request found its part evicted ----------------
+// The request is parked after the table lookup, SegmentCount+2 segment rotations evict its part,
+// it resumes (404): every lock must be free again; one more rotation and Close must go through.
+func runEvictClose(sc scenario, work string) (res result) {
+	p, pre, err := startPhase(sc, work, &res, true)
+	if err != nil {
+		res.infraErr = err.Error()
+		return
+	}
+	defer cleanup(p.d)
+	fail := func(err error) bool {
+		if err != nil && res.infraErr == "" {
+			res.infraErr = err.Error()
+		}
+		return err != nil
+	}
+	i := p.addReq(sc.Reqs[0])
+	if fail(p.r1(i)) {
+		return
+	}
+	for k, f := range sc.Frames {
+		owed, err := p.w1(f)
+		if err == nil && owed {
+			err = p.w2(fmt.Sprintf("after write %d", k+1))
+		}
+		if fail(err) {
+			return
+		}
+	}
+	if fail(p.r2(i, "after the part's segment left the window")) {
+		return
+	}
+	p.locksOracle("after the preload-hint request whose part was evicted returned")
+	res.tags = append(res.tags, "evictclose", "evictclose:order="+sc.Order)
+	if len(res.fails) > 0 {
+		// a lock is held for good: the next rotation / Close would block for ever
+		res.nontriv = true
+		close(p.cmds)
+		return
+	}
+	if sc.Order == "continue" {
+		owed, err := p.w1(true)
+		if err == nil && owed {
+			err = p.w2("after one more rotation")
+		}
+		if fail(err) {
+			return
+		}
+	}
+	if fail(p.closeFromWriter()) {
+		return
+	}
+	p.locksOracle("after Close returned")
+	left := dirEntries(p.d.dir)
+	filesEmpty := "None"
+	if p.d.dir != "" {
+		filesEmpty = fmt.Sprintf("(Some %v)", len(left) == 0)
+		if len(left) > 0 {
+			res.fail(sc, "C07:files-left-in-directory", fmt.Sprintf("after Close, Directory still holds %v", left))
+		}
+	}
+	res.coq = p.caseCoq(pre, true, filesEmpty)
+	res.nontriv = true
+	close(p.cmds)
+	return
+}
+
+// ---------------- Close after a segment rotation whose init generation failed ----------------
+// The H264 track has no out-of-band parameters and no PPS ever arrives: the first segment rotation
+// returns an error. Whatever that rotation left behind, Close must release the pending requests
+// (non-200), later requests must return, no lock may stay held and Directory must be empty.
+// The model has no failing rotation (its writer operations never fail): harness oracle only.
+func runInitFail(sc scenario, work string) (res result) {
+	d, err := newDriver(sc.Cfg, work)
+	if err != nil {
+		res.infraErr = err.Error()
+		return
+	}
+	defer cleanup(d)
+	c := newCtl(d.m)
+	p := &phase{sc: sc, d: d, c: c, sleeping: map[int]bool{}, res: &res}
+	p.w, p.cmds = c.spawnWriter(true)
+	fail := func(err error) bool {
+		if err != nil && res.infraErr == "" {
+			res.infraErr = err.Error()
+		}
+		return err != nil
+	}
+	for _, rq := range sc.Reqs {
+		i := p.addReq(rq)
+		if fail(p.r1(i)) || fail(p.r2(i, "before the failing rotation")) {
+			return
+		}
+	}
+	pendingOrig := p.sleepers()
+	// writes until one fails (hooks of this goroutine pass through: it is not an actor)
+	var werr error
+	for k := 0; k < len(sc.History) && werr == nil; k++ {
+		werr = d.writeFrame(sc.History[k])
+	}
+	if werr == nil {
+		res.infraErr = "initfail: no write failed"
+		return
+	}
+	created := len(dirEntries(d.dir))
+	// a failed rotation broadcasts nothing; whoever is woken later is woken by Close
+	done := make(chan struct{})
+	go func() { d.m.Close(); close(done) }()
+	select {
+	case <-done:
+	case <-time.After(watchdog):
+		res.fail(sc, "C07:close-does-not-return:after-failed-init-generation", "Close did not return within the watchdog after a rotation whose init generation failed")
+		return
+	}
+	if fail(p.settle(pendingOrig, "", "woken by Close after the failed rotation")) {
+		return
+	}
+	probes := []areq{{Kind: "multi"}, {Kind: "media", Stream: 0}}
+	for _, rq := range probes {
+		i := p.addReq(rq)
+		if fail(p.r1(i)) || fail(p.r2(i, "after Close")) {
+			return
+		}
+	}
+	p.locksOracle("after Close returned (failed init generation before)")
+	for i, o := range p.out {
+		k := kindOf(p.reqs[i])
+		switch {
+		case o.Class != "done":
+			res.fail(sc, "C07:request-not-complete:"+k, fmt.Sprintf("request %d (%s) is %s after Close returned (failed init generation before)", i, k, o.Class))
+		case i < len(sc.Reqs) && o.Status == 200:
+			res.fail(sc, "C07:pending-request-answered-200:"+k, fmt.Sprintf("pending request %d (%s) completed with 200 after Close", i, k))
+		}
+	}
+	if left := dirEntries(d.dir); len(left) > 0 {
+		res.fail(sc, "C07:files-left-in-directory:after-failed-init-generation",
+			fmt.Sprintf("a segment rotation failed while generating the init file (%v); after Close, Directory still holds %v", werr, left))
+	}
+	res.nontriv = true
+	res.tags = append(res.tags, "initfail", "initfail:variant="+sc.Cfg.Variant, fmt.Sprintf("initfail:pending=%d", len(pendingOrig)),
+		fmt.Sprintf("initfail:files-created=%v", created > 0))
 	close(p.cmds)
 	return
 }
